@@ -24,8 +24,11 @@ TRUSTED = [
 ASSUMPTIONS = [
     "metric values are Python ints (|i| <= 2^300) or finite floats with magnitude 0 or in [2^-300, 2^300] (no NaN/inf/bool; no intermediate leaves the normal double range)",
     "op_metrics records have the keys rally writes (throughput/latency/service_time/processing_time/error_rate); ML / transform entries carry all their numeric fields",
+    "ML job names / transform ids are distinct within one race, and the four transform lists are stored together or not at all (as GlobalStatsCalculator writes them); "
+    "other None / duplicate patterns are covered by the correspondence-only stream none_lists",
     "disk-usage-per-field rows (_report_disk_usage_stats_per_field) are exercised by the direct oracle only, not modelled",
 ]
+
 
 class TranslateError(Exception):
     """the behavioural probe of _metrics_table could not be turned into a call-site table (a failed obligation, not a harness error)"""
